@@ -503,7 +503,7 @@ def _case(draw, tier):
         if k == "notify":
             o["end"] = draw(st.sampled_from(["stop", "remove"]))
         if k == "connect":
-            o["dtimeout"] = draw(st.sampled_from([1, 2]))
+            o["dtimeout"] = draw(st.sampled_from([1, 2, 0]))
             o["flavour"] = draw(st.sampled_from(["v1", "v3cache", "v3nocache"]))
             o["address_type"] = draw(st.sampled_from([None, 0, 1]))
             if draw(st.booleans()):
@@ -641,6 +641,8 @@ def enumerated(tier):
             yield {"noise": noise, "ops": [conn, o2], "chunks": [{"t": 10, "msgs": [{"k": "conn", "addr": A, "connected": True, "mtu": 23, "error": 0}]},
                                                                 {"t": 70, "msgs": [{"k": "conn", "addr": B, "connected": False, "mtu": 0, "error": 8}] if kind2 in ("read", "write", "notify", "pair") else [fin]},
                                                                 {"t": 90, "msgs": [fin]}]}
+    for fl in ("v1", "v3cache"):
+        yield {"noise": False, "ops": [{"id": "op0", "kind": "connect", "addr": A, "t": 2, "timeout": 1, "dtimeout": 0, "flavour": fl, "address_type": None}], "chunks": []}
     # connect timeout phase 2: disconnect answered / not answered / answered for the other address
     for second in (None, {"k": "conn", "addr": A, "connected": False}, {"k": "conn", "addr": B, "connected": False}, {"k": "conn", "addr": A, "connected": True}):
         for fl in ("v1", "v3cache", "v3nocache"):
